@@ -10,7 +10,7 @@ from ufoverif.runner import Discard, Violation, guard
 
 ID = "C12"
 RULE = (
-    "case = font (1-14 glyphs; outlines as C01 plus repeated glyph parts, collinear runs, coincident points, widths equal to / different "
+    "case = font (1-14 glyphs; outlines as C01 plus repeated glyph parts, look-alike glyphs assembled from a small pool of contour shapes (identical glyphs next to partially shared ones), collinear runs, coincident points, widths equal to / different "
     "from the most common width, zero widths; kerning + anchors so GPOS/GDEF exist) compiled under all 18 combinations optimizeCFF{0,1,2} x "
     "subroutinizer{None,cffsubr,compreffor} x cffVersion{1,2}; oracle = differential against the reference combination (0,None,1): drawings "
     "equal under N1, exactly equal (N0) among optimizeCFF=0 combinations, hmtx equal, raw GPOS/GSUB/GDEF bytes equal; the one unsupported "
@@ -46,6 +46,15 @@ def _case(draw):
                 }
             )
     spec["glyphs"] = spec["glyphs"] + extra
+    if draw(st.sampled_from([True, False, False])):
+        # look-alike glyphs assembled from a small pool of contour shapes: identical glyphs (same outline and advance) next to glyphs sharing only part of it
+        pool = draw(st.lists(gen.contour(), min_size=2, max_size=4))
+        seqs = draw(st.lists(st.lists(st.integers(0, len(pool) - 1), min_size=1, max_size=4), min_size=3, max_size=8))
+        seqs.append(list(seqs[0]))
+        w2 = draw(st.sampled_from([500, 620]))
+        for i, seq in enumerate(seqs):
+            spec["glyphs"].append({"name": "pool%d" % i, "width": 500 if i in (0, len(seqs) - 1) else draw(st.sampled_from([500, 500, w2])),
+                                   "unicodes": [], "contours": [[list(p) for p in pool[k]] for k in seq]})
     for g in spec["glyphs"]:
         g["width"] = abs(g.get("width", 0))
     names = [g["name"] for g in spec["glyphs"] if g["name"] != ".notdef"]
@@ -141,6 +150,8 @@ def run_case(case, ctx):
         ctx.label("subroutines-present")
     if any(g.get("components") for g in spec["glyphs"]):
         ctx.label("composite")
+    if any(g["name"].startswith("pool") for g in spec["glyphs"]):
+        ctx.label("identical-and-partially-shared-glyphs")
     widths = {R.ot_round(g.get("width", 0)) for g in spec["glyphs"]}
     if "kerning" in spec:
         ctx.label("has-GPOS")
